@@ -2,6 +2,7 @@
 from .. import scriptprop
 
 ID = "C13"
+GEN = ['Chunk.lean']   # regenerated kernels this property's theorems are about (tie 4B)
 RULE = ("quick: every length n in 0..24 x every size in 1..26 (all remainders, size>n, size=n) for chunk/chunkfunc/windowed/windowedfunc, "
         "every n for pairs/pairsfunc, element values drawn from one PRNG; plus a malformed stream (size 0 and negative) judged against the model only; "
         "one script per (n,size); non-trivial = n >= 1")
